@@ -514,28 +514,41 @@ def _exc(ex) -> str:
     return type(ex).__name__
 
 
-def _make_fitting(proc, variables, readout, rows, cols, target):
-    """variables: [(key, lo, hi)] scalar ones."""
+def _make_fitting(proc, variables, readout, rows, cols, target, input_arguments=None):
+    """variables: [(key, lo, hi)] scalar ones or [(key, lo, hi, n)] list-valued ones (n >= 1 entries of the decision
+    vector); input_arguments: [(key, [v_0, .., v_{m-1}])] -> m processors (build_processors), one target file each."""
     from pyxel.calibration.fitness import sum_of_abs_residuals
     from pyxel.calibration.fitting_datatree import ModelFittingDataTree
     from pyxel.calibration.util import FitRange2D, FitRange3D
     from pyxel.observation import ParameterValues
 
-    pvs = [ParameterValues(key=k, values="_", boundaries=(lo, hi)) for (k, lo, hi) in variables]
-    if readout.time_domain_simulation:
-        # any Readout built with explicit `times` is a "time domain simulation": the target must be a
-        # (readout_time, y, x) cube.  A FitRange3D target range cannot be used (pyxel applies its "time" key
-        # on a "readout_time" dimension), a FitRange2D one covers the full cube.
-        nt = len(readout.times)
-        np.save("target.npy", np.full((nt, rows, cols), float(target), dtype=float))
-    else:
-        np.save("target.npy", np.full((rows, cols), float(target), dtype=float))
+    pvs = []
+    for var in variables:
+        k, lo, hi = var[0], var[1], var[2]
+        n = var[3] if len(var) > 3 and var[3] else None
+        pvs.append(ParameterValues(key=k, values="_" if n is None else ["_"] * n, boundaries=(lo, hi)))
+    nproc = len(input_arguments[0][1]) if input_arguments else 1
+    names = []
+    for i in range(nproc):
+        name = "target.npy" if nproc == 1 else "target%d.npy" % i
+        if readout.time_domain_simulation:
+            # any Readout built with explicit `times` is a "time domain simulation": the target must be a
+            # (readout_time, y, x) cube.  A FitRange3D target range cannot be used (pyxel applies its "time" key
+            # on a "readout_time" dimension), a FitRange2D one covers the full cube.
+            nt = len(readout.times)
+            np.save(name, np.full((nt, rows, cols), float(target), dtype=float))
+        else:
+            np.save(name, np.full((rows, cols), float(target), dtype=float))
+        names.append(Path(name))
+    kw = {}
+    if input_arguments:
+        kw["input_arguments"] = [ParameterValues(key=k, values=list(vals)) for k, vals in input_arguments]
     return ModelFittingDataTree(
         processor=proc, variables=pvs, readout=readout, simulation_output="pixel", generations=1,
         population_size=1, fitness_func=sum_of_abs_residuals, file_path=None,
         target_fit_range=FitRange2D(row=slice(0, rows), col=slice(0, cols)),
         out_fit_range=FitRange3D.from_sequence([0, rows, 0, cols]),
-        target_filenames=[Path("target.npy")], with_inherited_coords=True,
+        target_filenames=names, with_inherited_coords=True, **kw
     )
 
 
@@ -741,15 +754,25 @@ def _flatten_core(da):
     return [float(v) for v in arr.reshape(-1)]
 
 
+def _norm_label(v):
+    if isinstance(v, (list, tuple, np.ndarray)):
+        return tuple(_norm_label(x) for x in v)
+    if isinstance(v, (int, float, np.integer, np.floating)) and not isinstance(v, bool):
+        return float(v)
+    return v
+
+
 def _select_dim(da, dim, label, pos, nvalues):
-    coord = np.asarray(da[dim].values)
+    coord = da[dim].values
     try:
-        hits = np.nonzero(coord == label)[0]
+        # value-labelled dimension; a list-valued parameter is labelled with tuples (possibly re-ordered by xarray)
+        want = _norm_label(label)
+        hits = [i for i, c in enumerate(list(coord)) if _norm_label(c) == want]
     except Exception:  # noqa: BLE001
         hits = []
     if len(hits) == 1:
         return da.isel({dim: int(hits[0])}), "label"
-    if len(coord) == nvalues:
+    if len(coord) == nvalues and not isinstance(label, (list, tuple, np.ndarray)):
         return da.isel({dim: pos}), "position"
     raise ValueError("cannot select %r in dim %r (coord %r)" % (label, dim, coord.tolist()))
 
@@ -838,8 +861,12 @@ def do_observe(p, keep):
             obs = Observation(
                 parameters=[ParameterValues(key=k, values=copy.deepcopy(v)) for k, v in plist],
                 readout=readout, mode=mode, with_dask=bool(call.get("with_dask")), outputs=None)
-            dt = pyxel.run_mode(mode=obs, detector=det, pipeline=pipe, with_inherited_coords=True)
-            da = _pixel_da(dt).compute()
+            sched = call.get("scheduler") or "synchronous"
+            import dask
+
+            with dask.config.set(scheduler=sched, **({"num_workers": 3} if sched == "threads" else {})):
+                dt = pyxel.run_mode(mode=obs, detector=det, pipeline=pipe, with_inherited_coords=True)
+                da = _pixel_da(dt).compute()
             rec["dims"] = [str(d) for d in da.dims]
         except Exception as ex:  # noqa: BLE001
             rec["raised"] = _exc(ex)
@@ -876,27 +903,30 @@ def do_fitness(p, keep):
 
     spec = p["spec"]
     target = float(p.get("target", 0.0))
-    variables = [(v["key"], v.get("lo", 0), v.get("hi", 1000)) for v in p.get("variables") or []]
+    variables = [(v["key"], v.get("lo", 0), v.get("hi", 1000), v.get("n")) for v in p.get("variables") or []]
+    inputs = [(q["key"], list(q["values"])) for q in p.get("input_arguments") or []]
+    nproc = len(inputs[0][1]) if inputs else 1
     det, pipe, readout = build(spec)
     proc = Processor(det, pipe)
     keep.append(proc)
     rows, cols = det.geometry.row, det.geometry.col
     try:
-        mf = _make_fitting(proc, variables, readout, rows, cols, target)
+        mf = _make_fitting(proc, variables, readout, rows, cols, target, input_arguments=inputs or None)
     except Exception as ex:  # noqa: BLE001
         return {"init_raised": _exc(ex), "init_msg": str(ex)[:300], "evals": []}
     keep.append(mf)
-    template = mf.param_processor_list[0]
+    templates = list(mf.param_processor_list)
     b_caller = snapshot(proc)
-    b_templ = snapshot(template)
+    b_templ = _snap_many(**{"t%d" % i: t for i, t in enumerate(templates)})
     out = {"before_caller": snap_list(b_caller), "before_template": snap_list(b_templ), "evals": [],
-           "template_is_caller": template is proc}
+           "template_is_caller": any(t is proc for t in templates), "processors": len(templates)}
     for vec in p.get("vectors") or []:
         rec = {"vec": list(vec), "obs": None, "raised": None, "std": None, "std_raised": None}
         prev_disabled = logging.root.manager.disable
+        arg = np.array(vec, dtype=float)
         try:
             logging.disable(logging.CRITICAL)      # fitness() logs the traceback with logging.exception
-            f = mf.fitness(np.array(vec, dtype=float))[0]
+            f = mf.fitness(arg)[0]
             rec["obs"] = int(round(float(f) * 1024))
             if abs(rec["obs"] / 1024 - float(f)) > 1e-9:
                 rec["inexact"] = True
@@ -904,24 +934,43 @@ def do_fitness(p, keep):
             rec["raised"] = _exc(ex)
         finally:
             logging.disable(prev_disabled)
+        rec["vector_changed"] = [float(x) for x in arg] != [float(x) for x in vec]
         a_caller = snapshot(proc)
-        a_templ = snapshot(mf.param_processor_list[0])
+        a_templ = _snap_many(**{"t%d" % i: t for i, t in enumerate(mf.param_processor_list)})
         rec["caller_changed"] = snap_diff(b_caller, a_caller)[:10]
         rec["template_changed"] = snap_diff(b_templ, a_templ)[:10]
-        rec["after_caller"] = snap_list(a_caller)
+        if rec["vector_changed"]:
+            rec["caller_changed"] = (rec["caller_changed"] + ["<decision vector>"])[:10]
+        rec["after_caller"] = snap_list(a_caller) + ([1] if rec["vector_changed"] else [])
         rec["after_template"] = snap_list(a_templ)
-        params = {k: float(v) for (k, _, _), v in zip(variables, vec)}
-        _, _, raised, vals = _standalone(spec, params)
-        if raised is not None:
-            rec["std_raised"] = raised
-        else:
+        # the candidate's parameter values: scalars and slices of the decision vector
+        params = {}
+        a = 0
+        for (k, _, _, n) in variables:
+            if n:
+                params[k] = [float(x) for x in vec[a:a + n]]
+                a += n
+            else:
+                params[k] = float(vec[a])
+                a += 1
+        total = 0.0
+        for i in range(nproc):
+            pi = dict(params)
+            for k, vals in inputs:
+                pi[k] = vals[i]
+            _, _, raised, vals_i = _standalone(spec, pi)
+            if raised is not None:
+                rec["std_raised"] = raised
+                break
             try:
-                sim = np.array(vals, dtype=float).reshape((-1, rows, cols))
+                sim = np.array(vals_i, dtype=float).reshape((-1, rows, cols))
                 tgt = np.full((rows, cols), target, dtype=float)
-                fs = float(np.nansum(np.abs(tgt - sim)))
-                rec["std"] = int(round(fs * 1024))
+                total += float(np.nansum(np.abs(tgt - sim)))
             except Exception as ex:  # noqa: BLE001
                 rec["std_raised"] = _exc(ex)
+                break
+        if rec["std_raised"] is None:
+            rec["std"] = int(round(total * 1024))
         out["evals"].append(rec)
     return out
 
